@@ -75,6 +75,12 @@ CHECKS.update({
    text="ApplyResult defines the composed data (sequence of upcaster ids), final type and the failure cases; for every apply of generated and random registries the callback of ReplayWithUpcast must have seen exactly that (or the untouched original event with offset and timestamp unchanged when any step failed, with one error-handler call). Typed RegisterUpcast chains are replayed over random payloads with omitted fields and maps and compared with json(f(decode(raw))).",
    note=UNOTE+" The typed-upcaster clause is a payload-level comparison (random generation), outside the model.", ref="DESIGN.md 5/C17, 4.7"),
 })
+
+CHECKS.update({
+ "C15": dict(technique="TLA+ spec Names.tla (type-name derivation as a function of event shape and route, Go method-set rule explicit) evaluated by TLC over the full cross product, pre-fix variant as mutant; the same cross product executed on the real bus and validated against NamesTrace.tla",
+   text="The cross product shape x route is finite and is enumerated completely both in the model and on the real code: for every shape (value/pointer x no/own EventTypeName on value/pointer receiver, plus the state package's messages by value and by pointer) the stored type must equal what EventType reports, SubscribeWithReplay[T] must deliver the persisted event exactly once, and typed upcasters from and to the type must be applied.",
+   note="Trusted: TLC; one Go type per shape in the harness. Names that depend on the event's value (an envelope whose EventTypeName returns a field) have no single name per Go type and are outside this property's typed routes; the persisted name of such events is checked by C09.", ref="DESIGN.md 5/C15, 4.7"),
+})
 checks=[]
 for p in props:
     c=CHECKS.get(p['id'])
